@@ -24,13 +24,12 @@ func Check() *core.Check {
 	return &core.Check{
 		ID:    "C18",
 		Level: "exploration",
-		Rule: "case = (front-end in {Map, Set, orderedMap driven directly as map / as set, symbol-property table of one of 9 host object kinds}, pool of 12 key classes drawn from a catalogue of 23 SameValueZero classes with 3-22 producers each, " +
+		Rule: "case = (front-end in {Map, Set, orderedMap driven directly as map / as set, symbol-property table of one of 9 host object kinds}, pool of 12 key classes drawn from a catalogue of " + fmt.Sprint(len(catalogue)) + " SameValueZero classes with 3-22 producers each (incl. pairs of distinct keys with equal engine hashes), " +
 			"sequence of 6..40 ops incl. up to 3 live iterators, forEach/for-of with mutating bodies, bulk iteration forms, Export, structure walks); every observation compared with mapref; " +
 			"non-trivial = at least one iterator (explicit, forEach, for-of, or the copy loop of Object.assign/spread) was advanced after the entry it stood on had been deleted or cleared; distinct = distinct materialised cases",
 		Assumptions: []string{
 			"sequences longer than 40 ops, pools larger than 12 and more than 3 concurrent explicit iterators are outside the quantifier",
 			"a structural inconsistency reported by the white-box walk without any observable difference in size / full iteration / has / get over the whole pool is logged as inconclusive, not as a violation",
-			"known finding C18-symiter-live: while listed, the copy result of an Object.assign/spread during which a getter created a symbol property is not compared (sym.go: excludeAssignCreate)",
 			"Export() of object-valued keys is only checked for presence (the exported form of an object is C13's subject)",
 		},
 		Cases: func(tier string) int {
@@ -48,7 +47,7 @@ func Check() *core.Check {
 
 // pinned regression witnesses (run in every tier).
 var pinned = []caseRec{
-	// 0: known finding C18-symiter-live — a getter visited by Object.assign creates a new symbol property: the spec copies
+	// 0: former finding C18-symiter-live (fixed b5d3152) — a getter visited by Object.assign creates a new symbol property: the spec copies
 	// only the keys that existed when the copy started.
 	{Target: "sym", Host: 0, NoExclude: true, Ops: []op{
 		{Op: "defget", K: 0, Mut: 3, A: 2, Lim: 1, V: 7},
@@ -210,6 +209,8 @@ func minimise(cs *caseRec, monitor string, budget int) *caseRec {
 	return cur
 }
 
+var minimisedInThisWorker int
+
 func run_(c *core.Ctx) core.Result {
 	var cs *caseRec
 	if c.Index < 0 {
@@ -232,7 +233,9 @@ func run_(c *core.Ctx) core.Result {
 	switch {
 	case out.viol != nil:
 		min := cs
-		if c.Index >= 0 {
+		if c.Index >= 0 && minimisedInThisWorker < 40 {
+			// bounded: a worker that has already minimised 40 witnesses reports further ones as found
+			minimisedInThisWorker++
 			min = minimise(cs, out.viol.monitor, 200)
 		}
 		v := out.viol
